@@ -313,23 +313,33 @@ func c04(c *ev.Ctx) {
 		warm := []string{"", "w = " + first + "; ", "w = Absent; ", "if (" + first + ") { w = 1; } ", "w = len(" + first + "); "}[r.Intn(5)]
 		var script, want string
 		vars := map[string]model.Value{}
-		switch r.Intn(7) {
+		// the shadowing value: an ordinary one, or one that is null / falsy / empty (a
+		// variable that holds null is still a variable)
+		sv := []struct {
+			lit, desc string
+			val       model.Value
+		}{{`"shadow"`, "STRING:shadow", model.Str("shadow")}, {"null", "NULL:null", model.Null()}, {"false", "BOOLEAN:false", model.Bool(false)}, {"0", "INTEGER:0", model.Int(0)},
+			{`""`, "STRING:", model.Str("")}, {"[]", "ARRAY:[]", model.Arr()}, {`"shadow"`, "STRING:shadow", model.Str("shadow")}}[r.Intn(7)]
+		switch r.Intn(8) {
 		case 0: // assignment
-			script = warm + shadow + " = \"assigned\"; return " + shadow + ";"
-			want = "STRING:assigned"
+			script = warm + shadow + " = " + sv.lit + "; return " + shadow + ";"
+			want = sv.desc
 		case 1: // SetVariable by the host
-			vars[shadow] = model.Str("hostvar")
+			vars[shadow] = sv.val
 			script = warm + "return " + shadow + ";"
-			want = "STRING:hostvar"
+			want = sv.desc
 		case 2: // function parameter
-			script = "function f(" + shadow + ") { " + warm + "return " + shadow + "; } " + warm + "return f(\"param\");"
-			want = "STRING:param"
+			script = "function f(" + shadow + ") { " + warm + "return " + shadow + "; } " + warm + "return f(" + sv.lit + ");"
+			want = sv.desc
 		case 3: // local
-			script = "function f() { " + warm + "local " + shadow + "; " + shadow + " = \"loc\"; return " + shadow + "; } " + warm + "return f();"
-			want = "STRING:loc"
+			script = "function f() { " + warm + "local " + shadow + "; " + shadow + " = " + sv.lit + "; return " + shadow + "; } " + warm + "return f();"
+			want = sv.desc
+		case 7: // local that was never assigned
+			script = "function f() { " + warm + "local " + shadow + "; return " + shadow + "; } " + warm + "return f();"
+			want = "NULL:null"
 		case 4: // foreach variable
-			script = warm + "r = \"\"; foreach " + shadow + " in [\"x\", \"y\"] { r = r + " + shadow + "; } return r;"
-			want = "STRING:xy"
+			script = warm + "r = 1; foreach " + shadow + " in [" + sv.lit + "] { r = [" + shadow + "]; } return r;"
+			want = "ARRAY:[" + strings.SplitN(sv.desc, ":", 2)[1] + "]"
 		case 5: // compound assignment creates a variable from the field
 			script = warm + "Count += 10; return [Count, len(type(" + first + ")) > 0];"
 			want = "ARRAY:[13, true]"
@@ -349,7 +359,7 @@ func c04(c *ev.Ctx) {
 					"summary": fmt.Sprintf("%s (host variables %v) on %v: got %s, expected %s", script, describeFields(vars), doc, got, want), "script": script})
 				return
 			}
-			if strings.Contains(script, "Count++") || strings.Contains(script, "Count +=") || strings.Contains(script, " = \"assigned\"") {
+			if strings.Contains(script, "Count++") || strings.Contains(script, "Count +=") || strings.HasPrefix(strings.TrimPrefix(script, warm), shadow+" = ") {
 				break // the script's own variables persist into the next run by design
 			}
 		}
